@@ -173,15 +173,21 @@ class Interp(ObjectMixin, LoopMixin):
     def e_JoinedStr(self, node, env):
         parts = []
         args = []
+        lits = []
         for v in node.values:
             if isinstance(v, ast.Constant):
                 parts.append(str(v.value).replace("{", "{{").replace("}", "}}"))
+                lits.append(str(v.value))
             else:
                 parts.append("{}")
                 try:
-                    args.append(self.eval(v.value, env))
+                    a = self.eval(v.value, env)
                 except Unsupported:
                     return self.ops.opaque_str("fstr")
+                args.append(a)
+                lits.append(a.lit if isinstance(a, SStr) and a.lit is not None and v.format_spec is None else None)
+        if all(x is not None for x in lits):
+            return self.ops.lit("".join(lits))
         return self.ops.fmt("".join(parts), args)
 
     def e_FormattedValue(self, node, env):
@@ -262,6 +268,8 @@ class Interp(ObjectMixin, LoopMixin):
             if is_and and not taken:
                 return last if not isinstance(last, (SBool,)) else SBool(FALSE)
             if (not is_and) and taken:
+                if isinstance(last, SOpt):
+                    return last.inner  # truthy, hence not None
                 return last if not isinstance(last, (SBool,)) else SBool(TRUE)
         return last
 
@@ -374,6 +382,12 @@ class Interp(ObjectMixin, LoopMixin):
     def binop(self, op, a, b):
         if isinstance(a, SCarried) or isinstance(b, SCarried):
             raise Unsupported("loop-carried variable read")
+        for x in (a, b):
+            if isinstance(x, SOpt) and not isinstance(x.inner, SVal):
+                if not self.pure and self.st.branch(self.ops.is_none(x)):
+                    self.raise_builtin("TypeError", "unsupported operand type(s): 'NoneType'")
+        a = a.inner if isinstance(a, SOpt) and not isinstance(a.inner, SVal) else a
+        b = b.inner if isinstance(b, SOpt) and not isinstance(b.inner, SVal) else b
         if isinstance(a, (SInt, SBool)) and isinstance(b, (SInt, SBool)):
             x, y = self.ops.as_int(a), self.ops.as_int(b)
             if isinstance(op, ast.Add):
@@ -469,6 +483,12 @@ class Interp(ObjectMixin, LoopMixin):
             return BM.val_subscript(self, obj, key)
         if isinstance(obj, (SExternal, SBuiltin)):
             return obj
+        if isinstance(obj, SObj) and self.st.objs[obj.oid].cls == "$row":
+            from . import sql
+
+            if isinstance(key, SStr) and key.lit is not None:
+                return sql.row_get(self, obj, key.lit)
+            return sql.row_get(self, obj, self.concrete_int(key))
         raise Unsupported(f"subscript on {type(obj).__name__}")
 
     def concrete_int(self, v: V) -> int:
